@@ -131,6 +131,8 @@ def gen_C08(ctx):
            for s_ in ("pkg:%s/ns/name@1.0" % t_, "pkg:%s/name" % t_.upper())] \
         + [case("parse P " + hx(s_), "eco-names", s=s_, shape="P") for t_ in KNOWN_TYPES for nm in ECO_NAMES
            for s_ in ("pkg:%s/g/%s@1.0" % (t_, urllib.parse.quote(nm, safe="")), "pkg:%s/g/%s" % (t_.upper(), urllib.parse.quote(nm, safe="[]!$*(),;=~^{}|`<>\"' ")))]
+    base += [case("parse P " + hx(s_), "eco-versions", s=s_, shape="P") for t_ in KNOWN_TYPES for v_ in ECO_VERSIONS + DEFAULT_VERSIONS
+             for s_ in ("pkg:%s/g/Some.Name@%s" % (t_, urllib.parse.quote(v_, safe=".-+!*~^=,<>: ")),)]
     for c in base:
         g = dict(c)
         g["req"] = c["req"].replace("parse P ", "parse S ", 1)
@@ -159,6 +161,11 @@ def gen_C08(ctx):
             for script in ("ns:" + hx("g"), "ns:" + hx("g") + ";ver:" + hx("1.0")):
                 out.append(case("build S %s %s %s" % (hx(KNOWN_TYPES[i]), hx(nm), script), "builder-generic", shape="S"))
                 out.append(case("build P %s %s %s" % (IDENTS[i], hx(nm), script), "builder-typed", shape="P", generic=len(out) - 1))
+    for i in range(7):
+        for v_ in ECO_VERSIONS + DEFAULT_VERSIONS:
+            script = "ns:" + hx("g") + ";ver:" + hx(v_)
+            out.append(case("build S %s %s %s" % (hx(KNOWN_TYPES[i]), hx("Some.Name"), script), "builder-generic", shape="S"))
+            out.append(case("build P %s %s %s" % (IDENTS[i], hx("Some.Name"), script), "builder-typed", shape="P", generic=len(out) - 1))
     # names over the alphabet of the quantifier, exhaustively
     alpha = ["a", "A", "1", "-", "_", ".", "À", "ǅ"]
     import itertools
